@@ -76,8 +76,8 @@ M("name_bytes_big_endian_tail", ["C15", "C04"], "NAME byte 7 taken from bits 48.
 
 M("tp21_no_abort_on_rcv_timeout", ["C06"], "J1939-21 receive time-out drops the session without abort",
   ("j1939/j1939_21.py",
-   "                        self.__send_tp_abort(buf['dest_address'], buf['src_address'], self.ConnectionAbortReason.TIMEOUT, buf['pgn'])\n                    # TODO: should we notify our CAs about the cancelled transfer?\n                    self._rcv_buffer.pop(bufid, None)",
-   "                        pass\n                    # TODO: should we notify our CAs about the cancelled transfer?\n                    self._rcv_buffer.pop(bufid, None)"))
+   "                        self.__send_tp_abort(buf['dest_address'], buf['src_address'], self.ConnectionAbortReason.TIMEOUT, buf['pgn'])\n                    # TODO: should we notify our CAs about the cancelled transfer?\n                    with self._rcv_lock:",
+   "                        pass\n                    # TODO: should we notify our CAs about the cancelled transfer?\n                    with self._rcv_lock:"))
 M("tp21_t2_12s", ["C06"], "T2 = 12.5 s",
   ("j1939/j1939_21.py", "        T2 = 1.250\n", "        T2 = 12.50\n"))
 M("tp21_abort_reason_in_wrong_byte", ["C03", "C06"], "Abort frame: PGN bytes shifted (reason in byte 2)",
@@ -89,8 +89,8 @@ M("tp22_eoms_no_completeness", ["C06"], "FD EOMS delivers without completeness c
    " and (len(self._rcv_buffer[buffer_hash]['data']) == message_size):", ":"))
 M("tp21_bam_rcv_timeout_keeps_buffer", ["C06", "C07"], "BAM receive time-out does not delete the buffer when dest is global",
   ("j1939/j1939_21.py",
-   "                    # TODO: should we notify our CAs about the cancelled transfer?\n                    self._rcv_buffer.pop(bufid, None)",
-   "                        self._rcv_buffer.pop(bufid, None)\n                    else:\n                        buf['deadline'] = 0"))
+   "                            # (not a session the receive path has opened for this pair in the meantime)\n                            self._rcv_buffer.pop(bufid, None)",
+   "                            if buf['dest_address'] != ParameterGroupNumber.Address.GLOBAL:\n                                self._rcv_buffer.pop(bufid, None)\n                            else:\n                                buf['deadline'] = 0"))
 M("tp22_snd_timeout_no_release", ["C06", "C10"], "FD originator CTS time-out keeps the send buffer",
   ("j1939/j1939_22.py",
    "                        self.__send_tp_abort(buf['src_address'], buf['dest_address'], buf['session'], self.ConnectionAbortReason.TIMEOUT, buf['pgn'])\n                        del self._snd_buffer[bufid]",
@@ -233,6 +233,10 @@ M("tp21_dt_taken_out_of_sequence", ["C06"], "D59 reverted (part): data packets a
   ("j1939/j1939_21.py", "        if sequence_number != (len(self._rcv_buffer[buffer_hash]['data']) // 7) + 1:", "        if False:"))
 M("tp21_repeated_rts_refused_busy", ["C06"], "D59 reverted (part): a repeated RTS for the same PGN is refused, the old session kept",
   ("j1939/j1939_21.py", "                if self._rcv_buffer[buffer_hash]['pgn'] == pgn:", "                if False:"))
+M("tp21_rcv_timeout_pops_by_key", ["C08"], "D60 reverted (J1939-21): the timed-out receive session is removed by key",
+  ("j1939/j1939_21.py", "                        if self._rcv_buffer.get(bufid) is buf:\n", "                        if True:\n"))
+M("tp22_rcv_timeout_pops_by_key", ["C08"], "D60 reverted (J1939-22): the timed-out receive session is removed by key",
+  ("j1939/j1939_22.py", "                        if self._rcv_buffer.get(bufid) is buf:\n", "                        if True:\n"))
 M("dm1_notify_rereads_attributes", ["C16"], "D49 reverted: _notify_subscribers re-reads the attributes for every subscriber",
   ("j1939/diagnostic_messages.py", "            callback(sa, lamp_status.copy(), [dict(dtc_dic) for dtc_dic in dtc_dic_list], timestamp)",
    "            callback(sa, self._lamp_status.copy(), [dict(dtc_dic) for dtc_dic in self._dtc_dic_list], timestamp)"))
@@ -264,8 +268,8 @@ M("tp22_bam_slow", ["C09"], "FD BAM packets 250 ms apart",
 M("tp22_abort_leaks_session", ["C10"], "FD: session number not returned after peer abort (D23 reverted)",
   ("j1939/j1939_22.py", "                        del self._snd_buffer[bufid]\n                        self.__put_rts_cts_session(buf['session'])\n                    else:", "                        del self._snd_buffer[bufid]\n                    else:"))
 M("tp22_rcv_timeout_releases_own", ["C10", "C07"], "FD: receive time-out releases an originator session number (D1 reverted)",
-  ("j1939/j1939_22.py", "                        self.__send_tp_abort(buf['dest_address'], buf['src_address'], buf['session'], self.ConnectionAbortReason.TIMEOUT, buf['pgn'])\n                        self._rcv_buffer.pop(bufid, None)\n",
-   "                        self.__send_tp_abort(buf['dest_address'], buf['src_address'], buf['session'], self.ConnectionAbortReason.TIMEOUT, buf['pgn'])\n                        self._rcv_buffer.pop(bufid, None)\n                        self._J1939_22__put_rts_cts_session(buf['session'] & 7)\n"))
+  ("j1939/j1939_22.py", "                        self.__send_tp_abort(buf['dest_address'], buf['src_address'], buf['session'], self.ConnectionAbortReason.TIMEOUT, buf['pgn'])\n",
+   "                        self.__send_tp_abort(buf['dest_address'], buf['src_address'], buf['session'], self.ConnectionAbortReason.TIMEOUT, buf['pgn'])\n                        self._J1939_22__put_rts_cts_session(buf['session'] & 7)\n"))
 M("tp22_eoma_timeout_leaks_session", ["C10"], "FD: session not returned on EOMA time-out",
   ("j1939/j1939_22.py", "                        # TODO: should we inform the application about the eom ack timeout?\n                        del self._snd_buffer[bufid]\n                        self.__put_rts_cts_session(buf['session'])",
    "                        # TODO: should we inform the application about the eom ack timeout?\n                        del self._snd_buffer[bufid]"))
@@ -283,14 +287,14 @@ M("tp21_late_cts_spins", ["C07"], "J1939-21: no fallback when a CTS leaves nothi
 M("tp22_late_cts_spins", ["C07"], "J1939-22: no fallback when a CTS leaves nothing to send",
   ("j1939/j1939_22.py", "                        if (buf['state'] == self.SendBufferState.SENDING_RTS_CTS) and (buf['next_packet_to_send'] >= buf['num_segments']):", "                        if False:"))
 M("tp22_bam_reannounce_keyerror", ["C07"], "FD: re-announced BAM raises KeyError and is dropped (D3 reverted)",
-  ("j1939/j1939_22.py", "                del self._rcv_buffer[buffer_hash]\n\n            # init new buffer for this connection\n            self._rcv_buffer[buffer_hash] = {\n                    'pgn': pgn,\n                    'session': session_num,\n                    'message_size': message_size, # Total message size, number of bytes",
-   "                del self._rcv_buffer[buffer_hash]\n                return\n\n            # init new buffer for this connection\n            self._rcv_buffer[buffer_hash] = {\n                    'pgn': pgn,\n                    'session': session_num,\n                    'message_size': message_size, # Total message size, number of bytes"))
+  ("j1939/j1939_22.py", "                del self._rcv_buffer[buffer_hash]\n\n            # init new buffer for this connection\n            new_session = {\n                    'pgn': pgn,\n                    'session': session_num,\n                    'message_size': message_size, # Total message size, number of bytes",
+   "                del self._rcv_buffer[buffer_hash]\n                return\n\n            # init new buffer for this connection\n            new_session = {\n                    'pgn': pgn,\n                    'session': session_num,\n                    'message_size': message_size, # Total message size, number of bytes"))
 M("tp22_rcv_timeout_indexerror", ["C07", "C10"], "FD: receive time-out indexes the session pool with the remote session number (D2 reverted)",
-  ("j1939/j1939_22.py", "                        self.__send_tp_abort(buf['dest_address'], buf['src_address'], buf['session'], self.ConnectionAbortReason.TIMEOUT, buf['pgn'])\n                        self._rcv_buffer.pop(bufid, None)\n",
-   "                        self.__send_tp_abort(buf['dest_address'], buf['src_address'], buf['session'], self.ConnectionAbortReason.TIMEOUT, buf['pgn'])\n                        self._rcv_buffer.pop(bufid, None)\n                        self._J1939_22__put_rts_cts_session(buf['session'])\n"))
+  ("j1939/j1939_22.py", "                        self.__send_tp_abort(buf['dest_address'], buf['src_address'], buf['session'], self.ConnectionAbortReason.TIMEOUT, buf['pgn'])\n",
+   "                        self.__send_tp_abort(buf['dest_address'], buf['src_address'], buf['session'], self.ConnectionAbortReason.TIMEOUT, buf['pgn'])\n                        self._J1939_22__put_rts_cts_session(buf['session'])\n"))
 M("tp21_rcv_never_times_out", ["C07", "C06"], "J1939-21: RTS opens a receive session without deadline",
-  ("j1939/j1939_21.py", "                    'deadline': time.time() + self.Timeout.T2,\n                    'src_address' : src_address,\n                    'dest_address' : dest_address,\n                }\n\n            self.__send_tp_cts(dest_address, src_address, self._rcv_buffer[buffer_hash]['num_packages_max_rec'], 1, pgn)",
-   "                    'deadline': 0,\n                    'src_address' : src_address,\n                    'dest_address' : dest_address,\n                }\n\n            self.__send_tp_cts(dest_address, src_address, self._rcv_buffer[buffer_hash]['num_packages_max_rec'], 1, pgn)"))
+  ("j1939/j1939_21.py", "                    'deadline': time.time() + self.Timeout.T2,\n                    'src_address' : src_address,\n                    'dest_address' : dest_address,\n                }\n            with self._rcv_lock:\n                self._rcv_buffer[buffer_hash] = new_session\n\n            self.__send_tp_cts(dest_address, src_address, self._rcv_buffer[buffer_hash]['num_packages_max_rec'], 1, pgn)",
+   "                    'deadline': 0,\n                    'src_address' : src_address,\n                    'dest_address' : dest_address,\n                }\n            with self._rcv_lock:\n                self._rcv_buffer[buffer_hash] = new_session\n\n            self.__send_tp_cts(dest_address, src_address, self._rcv_buffer[buffer_hash]['num_packages_max_rec'], 1, pgn)"))
 M("listener_no_containment", ["C07"], "bus listener lets exceptions from frame handling escape",
   ("j1939/electronic_control_unit.py", "        except Exception as e:\n            # Exceptions in any callbaks should not affect CAN processing\n            logger.error(str(e))",
    "        except ZeroDivisionError as e:\n            # Exceptions in any callbaks should not affect CAN processing\n            logger.error(str(e))"))
@@ -468,7 +472,7 @@ def Bn(name, doc, *edits):
 Bn("benign_monotonic_clock", "time.monotonic() instead of time.time() everywhere",
    ("j1939/electronic_control_unit.py", "import time\n", "import time as _time_mod\n\nclass _T:\n    time = staticmethod(lambda: _time_mod.monotonic())\n\ntime = _T\n"))
 Bn("benign_from_time_import", "from time import time (function imported by name) in the J1939-21 layer",
-   ("j1939/j1939_21.py", "import logging\nimport time\n", "import logging\nfrom time import time as _now\n\nclass time:\n    time = staticmethod(lambda: _now())\n"))
+   ("j1939/j1939_21.py", "import logging\nimport threading\nimport time\n", "import logging\nimport threading\nfrom time import time as _now\n\nclass time:\n    time = staticmethod(lambda: _now())\n"))
 Bn("benign_simplequeue", "queue.SimpleQueue for the job-thread wake-up",
    ("j1939/electronic_control_unit.py", "self._job_thread_wakeup_queue = queue.Queue()", "self._job_thread_wakeup_queue = queue.SimpleQueue()"))
 Bn("benign_thread_subclass", "job thread as a Thread subclass",
